@@ -8,6 +8,7 @@ and C15) for the cw3-flex-multisig model in its world (cw4-group, cw20 deposit t
 The line protocol is documented in `docs/proto_cw3flex.md` (and at the top of `harness/src/scen_cw3flex.rs`).
 -/
 -- SCENARIO cw3flex Cw3Flex.scen
+-- SCENARIO cw3flexwide Cw3Flex.scen
 namespace CwPlus.Driver.Cw3Flex
 open CwPlus Wire Driver CwPlus.Cw3 CwPlus.Cw3Core CwPlus.Cw3Flex
 
@@ -22,6 +23,8 @@ structure MState where
   group : String := ""
   flex : String := ""
   ghost : String := ""
+  /-- header `wide=1` (`cw3flexwide`): `snap` probes only the start heights of the two most recent proposals -/
+  wide : Bool := false
 
 /-- `text:number` split at the last colon -/
 def parsePair (e : String) : String × Nat :=
@@ -154,7 +157,8 @@ def obsOf (m : MState) : Args :=
       | none => none
     let members := joinC ((sortedEntries strLt g.members.cur).map fun p => s!"{p.1}:{p.2}")
     let pvoters := u.map fun a => s!"{a}:{optNatStr (memberNow g a)}"
-    let heights := entries.foldl (fun acc e =>
+    let probed := if m.wide then entries.drop (entries.length - 2) else entries
+    let heights := probed.foldl (fun acc e =>
       insertNat (e.2.startHeight + 1) (insertNat e.2.startHeight (insertNat (e.2.startHeight - 1) acc))) []
     let snap := heights.map fun h =>
       s!"{h}|{Cw4Group.queryTotalWeight g (some h)}|{"|".intercalate (u.map fun a => s!"{a}:{optNatStr (memberAt g a h)}")}"
@@ -179,6 +183,11 @@ def parseExec (kind : String) (a : Args) : Option ExecMsg :=
   | _ => none
 
 def gArg (s : String) : Cw4Group.AddrArg := let p := parseAddr s; ⟨p.1, p.2⟩
+
+def cArg (s : String) : AddrArg := let p := parseAddr s; ⟨p.1, p.2⟩
+
+def shortViews (r : Res (List ProposalView)) : Res String :=
+  r.map fun vs => joinC (vs.map fun v => s!"{v.id}:{v.status.render}")
 
 def parseMember (e : String) : Cw4Group.AddrArg × Nat := let p := parsePair e; (gArg p.1, p.2)
 
@@ -271,6 +280,25 @@ def stepOp (m : MState) (toks : List String) : MState × StepResult :=
                { ok := some true, out := [("msgs", renderOuts out)],
                  tag := if out.isEmpty then s!"{kind}.ok" else s!"{kind}.ok.dispatched" })
             | .error e => err m s!"{kind}.dispatch.{e}"
+  | "query" :: kind :: rest =>
+    let a := args rest
+    match m.w with
+    | none => err m "uninit"
+    | some w =>
+      let limit := a.optNat "limit"
+      let renderMembers := fun (l : List (Addr × Nat)) => joinC (l.map fun p => s!"{p.1}:{p.2}")
+      let r : Res String :=
+        match kind with
+        | "list_proposals" => shortViews (Cw3Flex.listProposals w.flex m.blk (a.optNat "after") limit)
+        | "reverse_proposals" => shortViews (Cw3Flex.reverseProposals w.flex m.blk (a.optNat "before") limit)
+        | "list_votes" => (Cw3Flex.listVotes w.flex (a.nat "id") ((a.optStr "after").map cArg) limit).map fun l =>
+            joinC (l.map fun b => s!"{b.1}:{b.2.vote.render}:{b.2.weight}")
+        | "list_voters" => (Cw3Flex.listVoters w.group ((a.optStr "after").map gArg) limit).map renderMembers
+        | "list_members" => (Cw4Group.queryListMembers w.group ((a.optStr "after").map gArg) limit).map renderMembers
+        | _ => .error "badquery"
+      match r with
+      | .ok v => (m, { ok := some true, out := [("result", v)], tag := s!"q.{kind}.ok" })
+      | .error e => err m s!"q.{kind}.{e}"
   | _ => (m, { ok := none, tag := "unknown" })
 
 /-! ## Monitors: the properties' own predicates, evaluated on implementation observations -/
@@ -430,6 +458,8 @@ structure Mon where
   refunded : AMap Nat Nat := []
   /-- proposals closed by a Close (as opposed to stored Rejected by a vote or at creation) -/
   closed : List Nat := []
+  /-- header `wide=1`: only the most recent proposals have a snapshot probe -/
+  wide : Bool := false
 
 def mk (p sig d : String) : Finding := ⟨p, sig, d⟩
 
@@ -470,6 +500,7 @@ def monitorOp (mu : Mon) (prev : Args) (toks : List String) (implOk : Bool) (out
     let a := args rest
     let h := a.nat "height"
     ({ mu with blk := ⟨h, a.nat "time"⟩, dirtyAt := if mu.dirtyAt == some h then mu.dirtyAt else none }, [])
+  | "query" :: _ => (mu, [])
   | _ =>
     if (cur.get "uninit").isSome then (mu, []) else
     let kind := match toks with | "exec" :: _ :: k :: _ => k | k :: _ => k | [] => ""
@@ -498,7 +529,7 @@ def monitorOp (mu : Mon) (prev : Args) (toks : List String) (implOk : Bool) (out
       | none => []
       | some r =>
         match snapAt O r.start with
-        | none => [mk "C06" "C06/flex/no-snapshot-probe" s!"id={p.id} start={r.start}"]
+        | none => if mu.wide then [] else [mk "C06" "C06/flex/no-snapshot-probe" s!"id={p.id} start={r.start}"]
         | some sn =>
           let dirty := mu.createdDirty.contains p.id
           let pre := if dirty then "C06/flex/propose-after-group-update-in-same-block" else "C06/flex/not-snapshot"
@@ -775,10 +806,11 @@ def monitorOp (mu : Mon) (prev : Args) (toks : List String) (implOk : Bool) (out
     (mu, f3 ++ f5 ++ f6 ++ f15)
 
 def scen : Scen MState Mon where
-  init h := { pool := h.list "pool", cw20 := h.str "cw20", group := h.str "group", flex := h.str "flex", ghost := h.str "ghost" }
+  init h := { pool := h.list "pool", cw20 := h.str "cw20", group := h.str "group", flex := h.str "flex", ghost := h.str "ghost",
+              wide := h.str "wide" == "1" }
   step := stepOp
   obs := obsOf
-  monInit h := { flex := h.str "flex", cw20 := h.str "cw20" }
+  monInit h := { flex := h.str "flex", cw20 := h.str "cw20", wide := h.str "wide" == "1" }
   monitor := monitorOp
 
 end CwPlus.Driver.Cw3Flex
